@@ -166,8 +166,10 @@ Proof. intros H. unfold InvS in *. unfold apply_indexed.
 Qed.
 
 Lemma locate_inv s tg orc : InvS s -> InvS (snd (fst (locate s tg orc))).
-Proof. intros H. unfold locate. destruct (find_match (map_text (s_raw s)) tg orc) as [m1 orc1]. destruct m1; [exact H|].
-  match goal with |- context[find_match ?a ?b ?c] => destruct (find_match a b c) end. exact H. Qed.
+Proof. intros H. unfold locate. destruct (find_sub tg (map_text (s_raw s)) 0); [exact H|].
+  destruct orc as [|a r]; (match goal with |- context[find_sub tg ?a 0] => destruct (find_sub tg a 0) end; [exact H|]).
+  - match goal with |- context[find_match ?a ?b ?c] => destruct (find_match a b c) end. exact H.
+  - destruct a; [exact H|]. match goal with |- context[find_match ?a ?b ?c] => destruct (find_match a b c) end. exact H. Qed.
 Lemma apply_located_inv s uc st ml nw cm : InvS s -> InvS (fst (apply_located s uc st ml nw cm)).
 Proof. intros H. unfold apply_located.
   repeat (match goal with |- context[if ?x then _ else _] => destruct x end; try exact H); try (apply apply_indexed_inv; exact H).
